@@ -65,7 +65,7 @@ def _get_cpp_builtin_type(node):
 
 def _to_literal(value):
     try:
-        return '{}{}'.format(value, int(value, 0) > 0 and 'u' or '')
+        return '{}{}'.format(value.strip(), int(value, 0) > 0 and 'u' or '')
     except ValueError:
         return value
 
